@@ -1015,6 +1015,11 @@ vbi3_bit_slicer_set_params	(vbi3_bit_slicer *	bs,
 	data_bits = payload_bits + frc_bits;
 	data_samples = (sampling_rate * (int64_t) data_bits) / payload_rate;
 
+	/* The low pass slicer averages 1 << LP_AVG samples starting at
+	   each sampling point, it must not read past the end of the line. */
+	if (low_pass_bit_slicer_Y8 == bs->func)
+		data_samples += 1 << LP_AVG;
+
 	bs->total_bits = cri_bits + data_bits;
 
 	if ((sample_offset > samples_per_line)
